@@ -28,7 +28,8 @@ from .common import calls
 from .common import kw
 from .common import path_conditions
 
-FAMILIES = ("JSONPathError", "JSONPointerError", "RelativeJSONPointerError", "JSONPatchError", "json.JSONDecodeError")
+FAMILIES = ("JSONPathError", "JSONPointerError", "RelativeJSONPointerError", "JSONPatchError", "json.JSONDecodeError",
+            "UnicodeDecodeError")
 
 
 def _dest(call: ast.Call) -> Optional[str]:
